@@ -149,7 +149,7 @@ def run(ctx):
         body = ';\n'.join('(%s, %s, %s)' % (q(rm), g_list(['(%s, %s)' % (g_str(d), q(c)) for d, c in mp]),
                                             'None' if se is None else '(Some %s)' % q(se)) for rm, mp, se in rs)
         texts.append(HEADER + 'Definition basis : list str := %s.\nDefinition M : list (list Q) := %s.\n'
-                     'Definition cases := [\n%s\n].\nEval vm_compute in mismatches (okse basis M) 0 cases.\n'
+                     'Definition cases : list (Q * list (str * Q) * option Q) := [\n%s\n].\nEval vm_compute in mismatches (okse basis M) 0 cases.\n'
                      % (g_list([g_str(d) for d in uq['descriptors']]),
                         g_list([g_list([q(v) for v in row]) for row in uq['mat']]), body))
         meta.append((lib, rs))
